@@ -257,9 +257,11 @@ class ScenarioManagerSd(ScenarioManager):
             for scenario in self.scenarios.values():
                 if scenario.model == None:
                     scenario.model = model_class()
-                    scenario.starttime = scenario.model.starttime
-                    scenario.stoptime = scenario.model.stoptime
-                    scenario.dt = scenario.model.dt
+                    # the model's run specs apply unless the scenario definition overrides them
+                    runspecs = scenario.dictionary["runspecs"] if "runspecs" in scenario.dictionary else {}
+                    scenario.starttime = runspecs["starttime"] if "starttime" in runspecs else scenario.model.starttime
+                    scenario.stoptime = runspecs["stoptime"] if "stoptime" in runspecs else scenario.model.stoptime
+                    scenario.dt = runspecs["dt"] if "dt" in runspecs else scenario.model.dt
                     scenario.setup_constants()
                     scenario.setup_points()
 
